@@ -76,4 +76,38 @@ theorem C20_flex_default_partial (it : Ty) (h : it.WF) (l : LenTy) (hl : l.Law) 
 
 example : emplaceU (.str L16) .strEmpty ⟨0, [9,9,9,9,9]⟩ = .ok ⟨[0,0,9,9,9], .ok ()⟩ := by decide
 example : emplaceU FlexS1 .flexEmpty ⟨0, [9,9,9,9,9,9,9,9]⟩ = .ok ⟨[0,0,9,9,9,9,9,9], .ok ()⟩ := by decide
+
+/-- **C20, size of the default.** Whatever well-typed initialiser the default of a type amounts to: it is accepted by every
+aligned buffer of at least `sizeSpec t dflt` bytes (for the empty containers that is exactly `MIN_SIZE`, see below), refused by
+every shorter one, and on `Ok` the value's `size()` is `sizeSpec t dflt` — the same in every buffer, and minimal: no buffer
+shorter than it can hold this state. -/
+theorem C20_default_size (t : Ty) (h : t.WF) (dflt : Init) (hw : InitWT t dflt) (s : Slice)
+    (hal : s.addr % t.dict.align = 0) (hlen : t.dict.minSize ≤ s.len) :
+    ∃ o, emplaceU t dflt s = .ok o ∧
+      (o.res = .ok () ↔ Rep t dflt ∧ sizeSpec t dflt ≤ s.len) ∧
+      (o.res = .ok () → t.dict.size ⟨s.addr, o.bytes⟩ = .ok (sizeSpec t dflt)) := by
+  obtain ⟨o, ho, _⟩ := emplaceU_ok dflt t h hw s hal hlen
+  obtain ⟨h1, h2⟩ := (emplaceU_acc dflt t h hw).1 s hal hlen o ho
+  exact ⟨o, ho, h1, h2⟩
+
+/-- **C20, the empty containers.** The empty `FlatVec`, `FlatString` and `FlexVec` occupy exactly `MIN_SIZE` bytes and are
+representable: `default_in_place` succeeds on **every** aligned buffer of at least `MIN_SIZE` bytes, with `size() = MIN_SIZE`. -/
+theorem C20_empty_always_accepted (t : Ty) (h : t.WF) (dflt : Init)
+    (hd : (∃ et l, t = .vec et l ∧ dflt = .vecEmpty) ∨ (∃ l, t = .str l ∧ dflt = .strEmpty) ∨ (∃ it l, t = .flex it l ∧ dflt = .flexEmpty))
+    (s : Slice) (hal : s.addr % t.dict.align = 0) (hlen : t.dict.minSize ≤ s.len) :
+    ∃ o, emplaceU t dflt s = .ok o ∧ o.res = .ok () ∧ t.dict.size ⟨s.addr, o.bytes⟩ = .ok t.dict.minSize := by
+  have hw : InitWT t dflt := by
+    rcases hd with ⟨et, l, rfl, rfl⟩ | ⟨l, rfl, rfl⟩ | ⟨it, l, rfl, rfl⟩ <;> simp only [InitWT]
+  have hspec : sizeSpec t dflt = t.dict.minSize ∧ Rep t dflt := by
+    rcases hd with ⟨et, l, rfl, rfl⟩ | ⟨l, rfl, rfl⟩ | ⟨it, l, rfl, rfl⟩
+    · simp only [Ty.WF] at h
+      have hapos := (Pow2.of_max h.2.2.align_pow2 (Ty.law et h.1).align_pow2).pos
+      simp only [sizeSpec, Rep, Ty.dict, vecD, Nat.mul_zero, Nat.add_zero,
+        ceilMul_of_mod hapos (dataOffset_mod l h.2.2 et.dict.align (Ty.law et h.1).align_pow2), and_self]
+    · simp only [Ty.WF] at h
+      simp only [sizeSpec, Rep, Ty.dict, strD, Nat.add_zero, ceilMul_of_mod h.align_pow2.pos h.size_mod, and_self]
+    · simp only [sizeSpec, Rep, Ty.dict, flexD, and_self]
+  obtain ⟨o, ho, hiff, hsz⟩ := C20_default_size t h dflt hw s hal hlen
+  have hres : o.res = .ok () := hiff.2 ⟨hspec.2, by rw [hspec.1]; exact hlen⟩
+  exact ⟨o, ho, hres, by rw [← hspec.1]; exact hsz hres⟩
 end FV.Props
